@@ -19,6 +19,9 @@ type C01Case struct {
 	Y  h.Spec `json:"y,omitempty"`
 	P  uint   `json:"p"` // receiver precision (0 only for setprec)
 	M  uint8  `json:"m"` // receiver mode
+	// Alias: the receiver is the operand itself ("x" or "y"); that operand then carries the
+	// receiver's precision and mode and a leftover accuracy from an earlier inexact rounding.
+	Alias string `json:"alias,omitempty"`
 }
 
 func gapLimit() int64 {
@@ -84,7 +87,7 @@ func genRelExp(t *rapid.T, x h.Spec, ylen int, p uint) int64 {
 	return clampExp(e)
 }
 
-func genC01(t *rapid.T) C01Case {
+func genC01base(t *rapid.T) C01Case {
 	c := C01Case{}
 	c.Op = rapid.SampledFrom([]string{"add", "add", "sub", "sub", "mul", "mul", "quo", "quo", "quo", "set", "setprec", "neg", "abs"}).Draw(t, "op")
 	c.M = h.GenMode(t, "zmode")
@@ -300,6 +303,36 @@ func genC01(t *rapid.T) C01Case {
 	panic("unreachable")
 }
 
+// genC01 adds receiver/operand aliasing to a base case now and then.
+func genC01(t *rapid.T) C01Case {
+	c := genC01base(t)
+	if rapid.IntRange(0, 5).Draw(t, "aliased") != 0 {
+		return c
+	}
+	var which string
+	switch c.Op {
+	case "add", "sub", "mul", "quo":
+		which = rapid.SampledFrom([]string{"x", "y"}).Draw(t, "alias")
+	case "set", "neg", "abs":
+		which = "x"
+	default:
+		return c
+	}
+	s := &c.X
+	if which == "y" {
+		s = &c.Y
+	}
+	if s.F == "f" && uint(len(s.D)) > c.P {
+		c.P = uint(len(s.D)) + uint(rapid.IntRange(0, 3).Draw(t, "aliasp"))
+	}
+	if c.Op == "quo" && int(c.P) > quoPrecLimit() {
+		return c
+	}
+	s.P, s.M, s.Hist = c.P, c.M, "acc"
+	c.Alias = which
+	return c
+}
+
 func mkRecv(p uint, m uint8) *decimal.Decimal {
 	return new(decimal.Decimal).SetMode(decimal.RoundingMode(m)).SetPrec(p)
 }
@@ -352,6 +385,12 @@ func c01Exec(c C01Case) *decimal.Decimal {
 		y = c.Y.Build()
 	}
 	z := mkRecv(c.P, c.M)
+	switch c.Alias {
+	case "x":
+		z = x
+	case "y":
+		z = y
+	}
 	switch c.Op {
 	case "add":
 		z.Add(x, y)
@@ -385,6 +424,9 @@ func checkC01(c C01Case, o *h.Obs) *h.Fail {
 		cls = "prec0"
 	}
 	o.Label(c.Op)
+	if c.Alias != "" {
+		o.Label("aliased-receiver")
+	}
 	o.Label(c.Op + ":" + cls)
 	o.Labelf("mode:%v", model.Mode(c.M))
 	if want.Acc != model.Exact || want.V.Form != model.Finite {
